@@ -2,12 +2,14 @@
 # developer helper: t1diff.sh <component> [tier] [seed]  -- run harness gen + model, tabulate mismatching op results
 set -e
 C=$1; T=${2:-quick}; S=${3:-1}
-W=/verif/.cache/t1diff; rm -rf $W; mkdir -p $W
-H=/verif/.cache/target/debug/verif-harness
+# VERIF_ROOT / VERIF_HARNESS: use another tree's modelrun / harness binary (e.g. a worktree with its own cargo target dir)
+R=${VERIF_ROOT:-/verif}
+W=$R/.cache/t1diff; rm -rf $W; mkdir -p $W
+H=${VERIF_HARNESS:-$R/.cache/target/debug/verif-harness}
 $H gen $C $T $S $W/cases
 split -n l/16 $W/cases $W/p.
-for f in $W/p.??; do VERIF_PRIMSERVER="$H primserver" /verif/ocaml/modelrun $f > $f.out & done; wait
+for f in $W/p.??; do VERIF_PRIMSERVER="$H primserver" $R/ocaml/modelrun $f > $f.out & done; wait
 cat $W/p.?? | awk -F'\t' '{print $NF}' > $W/impl
 cat $W/p.??.out > $W/model
 wc -l $W/cases
-paste -d'\n' $W/impl $W/model | awk 'NR%2==1{a=$0} NR%2==0{ if (a!=$0) {n++; if (n<=2000) {na=split(a,x," \\| "); nb=split($0,y," \\| "); for(i=1;i<=na;i++) if (x[i]!=y[i]) {print substr(x[i],1,60) "  ||  " substr(y[i],1,60); break}}}} END{print n+0" mismatches"}' | sort | uniq -c | sort -rn | head -${4:-30}
+paste -d'\n' $W/impl $W/model | awk '{gsub(/ERR [A-Za-z0-9_]+/,"ERR")} NR%2==1{a=$0} NR%2==0{ if (a!=$0) {n++; if (n<=2000) {na=split(a,x," \\| "); nb=split($0,y," \\| "); for(i=1;i<=na;i++) if (x[i]!=y[i]) {print substr(x[i],1,60) "  ||  " substr(y[i],1,60); break}}}} END{print n+0" mismatches"}' | sort | uniq -c | sort -rn | head -${4:-30}
